@@ -286,6 +286,8 @@ func c02(tier string, args []string) int {
 	// two rounds on the same machines (c02b.go)
 	two := c02TwoRounds(r, tier)
 	r.Set("two_round_histories", two)
+	// one database write of one machine fails inside one of its operations (c02b.go)
+	c02FailingWrites(r, tier)
 	r.Set("states", totS)
 	r.Set("transitions", totT)
 	r.Set("traces_validated_against_impl", totTerm)
